@@ -31,7 +31,7 @@ def gen_case(rng):
     c = trajsc.fix_ties(rng, trajsc.rand_coords(rng, T, A, step_scale=int(rng.choice([3, 10]))))
     return {'lattice_name': name, 'lattice': lat.tolist(), 'species': species, 'coords': c.tolist(),
             'time_step': float(rng.choice([1e-15, 2e-15])), 'temperature': float(rng.choice([300.0, 650.0])),
-            'k': float(rng.choice([0.5, 2.0, 4.0])), 's': float(rng.choice([0.5, 2.0, 8.0]))}
+            'k': float(rng.choice([0.5, 2.0, 4.0, 2.0 ** -10, 2.0 ** -14, 2.0 ** 9])), 's': float(rng.choice([0.5, 2.0, 8.0]))}
 
 
 def build(case, lat=None, dt=None, coords=None):
@@ -145,6 +145,21 @@ def check_case(out: Outcome, case, tag):
                 out.fail('property', clause, case, expected=float(want), observed=float(got))
         if not np.allclose(np.array(mk.amplitudes()), amps * k, rtol=1e-9, atol=1e-12):
             out.fail('property', 'scale-cell-amplitudes', case)
+        # --- a trajectory that grows: metrics asked, trajectory extended in place, metrics asked of a NEW metrics object while the
+        #     old one is still alive -> the answers describe the extended trajectory
+        if T >= 6:
+            h = T // 2
+            first = build(case, coords=coords[:h])
+            m_old = first.metrics()
+            _ = (m_old.tracer_diffusivity(dimensions=3), m_old.particle_density(), m_old.amplitudes(), m_old.speed())
+            first.extend(build(case, coords=coords[h:]))
+            m_new = first.metrics()
+            c2 = {**case, 'history': 'metrics queried on the first half, extend(second half), new metrics() object queried'}
+            if not rel(m_new.tracer_diffusivity(dimensions=3), m.tracer_diffusivity(dimensions=3), 1e-9):
+                out.fail('property', 'tracer-diffusivity', c2, expected=float(m.tracer_diffusivity(dimensions=3)), observed=float(m_new.tracer_diffusivity(dimensions=3)))
+            elif np.array(m_new.speed()).shape != np.array(m.speed()).shape or not np.allclose(np.array(m_new.amplitudes()), amps, rtol=1e-9, atol=1e-12):
+                out.fail('property', 'amplitudes', c2, expected=amps.tolist()[:8], observed=np.array(m_new.amplitudes()).tolist()[:8])
+            del m_old
         # --- atoms that all move identically: Haven ratio one
         same = np.repeat(coords[:, :1, :] - coords[:1, :1, :], A, axis=1) + coords[:1]
         if np.any(same[-1] != same[0]):
